@@ -2814,9 +2814,32 @@ func (p *Posix) PutObject(ctx context.Context, po s3response.PutObjectInput) (s3
 
 		// the request authentication is deferred until the body reader
 		// hits EOF, so consume it before creating anything
+		// (a directory object has no data: any byte the body delivers,
+		// and any supplied checksum that is not the checksum of no data,
+		// refuses the request like it does for a file object)
 		if po.Body != nil {
-			if _, err := io.Copy(io.Discard, po.Body); err != nil {
+			var rdr io.Reader = po.Body
+			for _, config := range []hashConfig{
+				{po.ChecksumCRC32, utils.HashTypeCRC32},
+				{po.ChecksumCRC32C, utils.HashTypeCRC32C},
+				{po.ChecksumSHA1, utils.HashTypeSha1},
+				{po.ChecksumSHA256, utils.HashTypeSha256},
+				{po.ChecksumCRC64NVME, utils.HashTypeCRC64NVME},
+			} {
+				if config.value != nil {
+					hashRdr, err := utils.NewHashReader(rdr, *config.value, config.hashType)
+					if err != nil {
+						return s3response.PutObjectOutput{}, fmt.Errorf("initialize hash reader: %w", err)
+					}
+					rdr = hashRdr
+				}
+			}
+			n, err := io.Copy(io.Discard, rdr)
+			if err != nil {
 				return s3response.PutObjectOutput{}, err
+			}
+			if n != 0 {
+				return s3response.PutObjectOutput{}, s3err.GetAPIError(s3err.ErrDirectoryObjectContainsData)
 			}
 		}
 
